@@ -2,7 +2,9 @@ use proc_macro2::{Span, TokenStream};
 use quote::{format_ident, quote};
 use syn::{Data, DeriveInput, Fields, Type};
 
-use crate::helpers::{non_enum_error, HasStrumVariantProperties, HasTypeProperties};
+use crate::helpers::{
+    non_enum_error, with_visible_groups, HasStrumVariantProperties, HasTypeProperties,
+};
 
 pub fn from_repr_inner(ast: &DeriveInput) -> syn::Result<TokenStream> {
     let name = &ast.ident;
@@ -56,7 +58,7 @@ pub fn from_repr_inner(ast: &DeriveInput) -> syn::Result<TokenStream> {
         let const_var_ident = format_ident!("{}_DISCRIMINANT", variant.ident);
 
         let const_val_expr = match &variant.discriminant {
-            Some((_, expr)) => quote! { #expr },
+            Some((_, expr)) => with_visible_groups(expr),
             None => match &prev_const_var_ident {
                 Some(prev) => quote! { #prev + 1 },
                 None => quote! { 0 },
